@@ -792,6 +792,8 @@ pub fn run_pending(w: &Arc<World>, p: &mut Pending) {
 
 impl Drop for Session {
     fn drop(&mut self) {
+        // the runtime and its handlers refer to each other: without this every engine would stay allocated
+        self.engine.verif().teardown();
         verif::uninstall();
         // break the reference cycles of in-flight futures
         self.w.pending.lock().unwrap().clear();
